@@ -70,4 +70,152 @@ theorem lt_eq (a b : DurTy) (h : PairTyOk a b) (x y : Int) (hin : PairIn a b x y
     have := lt_of_mul_lt_mul_right this (le_of_lt hpos)
     exact_mod_cast this
 
+/-- `operator==` compares the exact values. -/
+theorem eq_eq (a b : DurTy) (h : PairTyOk a b) (x y : Int) (hin : PairIn a b x y) :
+    eq a b x y = .ok (Spec.eq a.per.toRat b.per.toRat x y) := by
+  obtain ⟨c1, c2⟩ := both_common a b h x y hin
+  obtain ⟨ha, hb, hpa, hpb, hc⟩ := h
+  obtain ⟨e1, e2, hpos, _⟩ := mul_rat a.per b.per hpa hpb hc.1
+  unfold eq
+  rw [pairCtx_eq a b ha hb hpa hpb hc]
+  simp only [bind, Except.bind, eqCore, c1, c2]
+  unfold Spec.eq Spec.val
+  congr 1
+  have hb' : ∀ u v : Int, (u == v) = decide (u = v) := by intro u v; by_cases h : u = v <;> simp [h]
+  rw [hb', decide_eq_decide, ← e1, ← e2]
+  constructor
+  · intro heq
+    have : ((x * mulL a.per b.per : Int) : ℚ) = ((y * mulR a.per b.per : Int) : ℚ) := by exact_mod_cast heq
+    push_cast at this
+    rw [← mul_assoc, ← mul_assoc, this]
+  · intro heq
+    have h2 : ((x : ℚ) * mulL a.per b.per) * (cdPer a.per b.per).toRat = ((y : ℚ) * mulR a.per b.per) * (cdPer a.per b.per).toRat := by
+      rw [mul_assoc, mul_assoc]; exact heq
+    have := mul_right_cancel₀ (ne_of_gt hpos) h2
+    exact_mod_cast this
+
+/-- The derived comparisons: `!=` is `!(==)`, `<=` is `!(rhs < lhs)`, `>` is `rhs < lhs`, `>=` is `!(lhs < rhs)`,
+    all on the exact values (`PairIn b a y x` is the same requirement with the roles exchanged). -/
+theorem cmp_derived_eq (a b : DurTy) (h : PairTyOk a b) (h' : PairTyOk b a) (x y : Int) (hin : PairIn a b x y)
+    (hin' : PairIn b a y x) :
+    ne a b x y = .ok (!Spec.eq a.per.toRat b.per.toRat x y) ∧
+    le a b x y = .ok (!Spec.lt b.per.toRat a.per.toRat y x) ∧
+    gt a b x y = .ok (Spec.lt b.per.toRat a.per.toRat y x) ∧
+    ge a b x y = .ok (!Spec.lt a.per.toRat b.per.toRat x y) := by
+  unfold ne le gt ge
+  rw [eq_eq a b h x y hin, lt_eq a b h x y hin, lt_eq b a h' y x hin']
+  exact ⟨rfl, rfl, rfl, rfl⟩
+
+/-- `operator+`: no overflow, and the sum denotes exactly the sum of the two values (in ticks of the common period). -/
+theorem add_exact (a b : DurTy) (h : PairTyOk a b) (x y : Int) (hin : PairIn a b x y)
+    (hsum : (cdTy a b).rep.inR (x * mulL a.per b.per + y * mulR a.per b.per) = true) :
+    ∃ r, add a b x y = .ok r ∧
+      (r : ℚ) * (cdTy a b).per.toRat = Spec.val a.per.toRat x + Spec.val b.per.toRat y := by
+  obtain ⟨c1, c2⟩ := both_common a b h x y hin
+  have hcd := cd_repOk h
+  obtain ⟨ha, hb, hpa, hpb, hc⟩ := h
+  obtain ⟨e1, e2, _⟩ := mul_rat a.per b.per hpa hpb hc.1
+  refine ⟨x * mulL a.per b.per + y * mulR a.per b.per, ?_, ?_⟩
+  · unfold add
+    rw [pairCtx_eq a b ha hb hpa hpb hc]
+    simp only [bind, Except.bind, addCore, c1, c2]
+    have : (pairK a b).cd = cdTy a b := rfl
+    rw [this, repOk_promote hcd, arith_ok _ (repOk_w hcd) _ hsum]
+    simp only [mkCD_id _ hcd _ hsum]
+  · unfold Spec.val; push_cast
+    have : (cdTy a b).per.toRat = (cdPer a.per b.per).toRat := rfl
+    rw [this, ← e1, ← e2]; ring
+
+/-- `operator-`: no overflow, exact difference. -/
+theorem sub_exact (a b : DurTy) (h : PairTyOk a b) (x y : Int) (hin : PairIn a b x y)
+    (hdiff : (cdTy a b).rep.inR (x * mulL a.per b.per - y * mulR a.per b.per) = true) :
+    ∃ r, sub a b x y = .ok r ∧
+      (r : ℚ) * (cdTy a b).per.toRat = Spec.val a.per.toRat x - Spec.val b.per.toRat y := by
+  obtain ⟨c1, c2⟩ := both_common a b h x y hin
+  have hcd := cd_repOk h
+  obtain ⟨ha, hb, hpa, hpb, hc⟩ := h
+  obtain ⟨e1, e2, _⟩ := mul_rat a.per b.per hpa hpb hc.1
+  refine ⟨x * mulL a.per b.per - y * mulR a.per b.per, ?_, ?_⟩
+  · unfold sub
+    rw [pairCtx_eq a b ha hb hpa hpb hc]
+    simp only [bind, Except.bind, subCore, c1, c2]
+    have : (pairK a b).cd = cdTy a b := rfl
+    rw [this, repOk_promote hcd, arith_ok _ (repOk_w hcd) _ hdiff]
+    simp only [mkCD_id _ hcd _ hdiff]
+  · unfold Spec.val; push_cast
+    have : (cdTy a b).per.toRat = (cdPer a.per b.per).toRat := rfl
+    rw [this, ← e1, ← e2]; ring
+
+/-! ## floor, ceil -/
+
+theorem ltCore_spec (a b : DurTy) (h : PairTyOk a b) (x y : Int) (hin : PairIn a b x y) :
+    ltCore (pairK a b) x y = .ok (Spec.lt a.per.toRat b.per.toRat x y) := by
+  have := lt_eq a b h x y hin
+  obtain ⟨ha, hb, hpa, hpb, hc⟩ := h
+  unfold lt at this
+  rw [pairCtx_eq a b ha hb hpa hpb hc] at this
+  simpa [bind, Except.bind] using this
+
+/-- `floor<To>(d)` is the greatest integer not above the exact quotient `c · p / q`, also for negative counts.
+    `hcmp`: the comparison `t > d` converts `d` and the truncated result to their common type; `hstep`: `t - 1` is a value
+    of `To::rep`. -/
+theorem floor_eq (dst frm : DurTy) (h : CastTyOk dst frm) (hp : PairTyOk frm dst) (c : Int) (hin : CastIn dst frm c)
+    (hcmp : PairIn frm dst c (Spec.cast frm.per.toRat dst.per.toRat c))
+    (hstep : dst.rep.inR (Spec.cast frm.per.toRat dst.per.toRat c + -1) = true) :
+    floorTo dst frm c = .ok (Spec.floor frm.per.toRat dst.per.toRat c) := by
+  have hQ := toRat_pos dst.per h.2.2.2.1
+  have hcast := castCore_spec dst frm h c hin
+  have hlt := ltCore_spec frm dst hp c _ hcmp
+  have hctx : floorCtx dst frm = .ok ⟨dst, castK dst frm, pairK frm dst⟩ := by
+    unfold floorCtx
+    rw [castCtx_eq dst frm h.1 h.2.1 h.2.2.1 h.2.2.2.1 h.2.2.2.2, pairCtx_eq frm dst hp.1 hp.2.1 hp.2.2.1 hp.2.2.2.1 hp.2.2.2.2]
+    rfl
+  unfold floorTo
+  rw [hctx]
+  simp only [bind, Except.bind, floorCore, hcast, hlt]
+  rw [spec_lt_left _ _ hQ]
+  have key := trunc_floor_adjust (Spec.val frm.per.toRat c / dst.per.toRat)
+  unfold Spec.floor
+  rw [rat_floor_eq, ← key]
+  by_cases hx : Spec.val frm.per.toRat c / dst.per.toRat < ((Spec.cast frm.per.toRat dst.per.toRat c : Int) : ℚ)
+  · have hx' : Spec.val frm.per.toRat c / dst.per.toRat < ((Spec.trunc (Spec.val frm.per.toRat c / dst.per.toRat) : Int) : ℚ) := hx
+    rw [if_pos hx']
+    simp only [hx, decide_true, if_true]
+    rw [step1_eq dst h.1 _ _ hstep]
+    rfl
+  · have hx' : ¬ Spec.val frm.per.toRat c / dst.per.toRat < ((Spec.trunc (Spec.val frm.per.toRat c / dst.per.toRat) : Int) : ℚ) := hx
+    rw [if_neg hx']
+    simp only [hx, decide_false, Bool.false_eq_true, if_false]
+    rfl
+
+/-- `ceil<To>(d)` is the least integer not below the exact quotient. -/
+theorem ceil_eq (dst frm : DurTy) (h : CastTyOk dst frm) (hp : PairTyOk dst frm) (c : Int) (hin : CastIn dst frm c)
+    (hcmp : PairIn dst frm (Spec.cast frm.per.toRat dst.per.toRat c) c)
+    (hstep : dst.rep.inR (Spec.cast frm.per.toRat dst.per.toRat c + 1) = true) :
+    ceilTo dst frm c = .ok (Spec.ceil frm.per.toRat dst.per.toRat c) := by
+  have hQ := toRat_pos dst.per h.2.2.2.1
+  have hcast := castCore_spec dst frm h c hin
+  have hlt := ltCore_spec dst frm hp _ c hcmp
+  have hctx : ceilCtx dst frm = .ok ⟨dst, castK dst frm, pairK dst frm⟩ := by
+    unfold ceilCtx
+    rw [castCtx_eq dst frm h.1 h.2.1 h.2.2.1 h.2.2.2.1 h.2.2.2.2, pairCtx_eq dst frm hp.1 hp.2.1 hp.2.2.1 hp.2.2.2.1 hp.2.2.2.2]
+    rfl
+  unfold ceilTo
+  rw [hctx]
+  simp only [bind, Except.bind, ceilCore, hcast, hlt]
+  rw [spec_lt_right _ _ hQ]
+  have key := trunc_ceil_adjust (Spec.val frm.per.toRat c / dst.per.toRat)
+  unfold Spec.ceil
+  rw [rat_ceil_eq, ← key]
+  by_cases hx : ((Spec.cast frm.per.toRat dst.per.toRat c : Int) : ℚ) < Spec.val frm.per.toRat c / dst.per.toRat
+  · have hx' : ((Spec.trunc (Spec.val frm.per.toRat c / dst.per.toRat) : Int) : ℚ) < Spec.val frm.per.toRat c / dst.per.toRat := hx
+    rw [if_pos hx']
+    simp only [hx, decide_true, if_true]
+    rw [step1_eq dst h.1 _ _ hstep]
+    rfl
+  · have hx' : ¬ ((Spec.trunc (Spec.val frm.per.toRat c / dst.per.toRat) : Int) : ℚ) < Spec.val frm.per.toRat c / dst.per.toRat := hx
+    rw [if_neg hx']
+    simp only [hx, decide_false, Bool.false_eq_true, if_false]
+    rfl
+
 end Tetl.C12.Props
